@@ -113,6 +113,40 @@ assert ecb(bytes(range(32)), bytes.fromhex("00112233445566778899aabbccddeeff")).
 assert cbc_enc(bytes.fromhex("2b7e151628aed2a6abf7158809cf4f3c"), bytes(range(16)), bytes.fromhex("6bc1bee22e409f96e93d7e117393172a")).hex() == "7649abac8119b246cee98e9b12e9197d"
 
 
+def _wrapper(m):
+    """CryptAES wrapper installed by patch_pypdf_fallback_aes (if pypdf runs on its fallback provider)."""
+    try:
+        import pypdf._crypt_providers as providers
+        if providers.crypt_provider[0] != "local_crypt_fallback":
+            return None
+        m.patch_pypdf_fallback_aes()
+        import pypdf._crypt_providers._fallback as fb
+    except Exception:  # noqa
+        return None
+
+    def run(m, cbc_enc, cbc_dec):
+        for klen in (16, 32):
+            key = bytes(range(klen))
+            for n in list(range(0, 40)) + [63, 64, 65]:
+                for d in ((bytes(range(7, 250)) * 2)[:n], bytes([16 - (n % 16) or 16]) * n):
+                    c = fb.CryptAES(key)
+                    enc = c.encrypt(d)
+                    if len(enc) != 16 + len(d) + (16 - len(d) % 16):
+                        return ("CryptAES.encrypt", {"key": key.hex(), "data": d.hex()}, "iv + padded ciphertext", f"{len(enc)} bytes")
+                    iv, body = enc[:16], enc[16:]
+                    pad = 16 - len(d) % 16
+                    if body != cbc_enc(key, iv, d + bytes([pad]) * pad):
+                        return ("CryptAES.encrypt", {"key": key.hex(), "data": d.hex()}, "CBC of padded data under the prepended IV", body.hex()[:64])
+                    try:
+                        back = c.decrypt(enc)
+                    except Exception as e:  # noqa
+                        back = f"{type(e).__name__}: {e}".encode()
+                    if back != d:
+                        return ("CryptAES.decrypt", {"key": key.hex(), "data": d.hex()}, d.hex(), bytes(back).hex())
+        return None
+    return run
+
+
 def cases(seed):
     rnd = random.Random(seed)
     yield bytes(16), bytes(16), bytes(16)
@@ -172,6 +206,43 @@ def find(req):
             p = m._pkcs7_pad(d, 16)
             if len(p) % 16 or p[:len(d)] != d or m._pkcs7_unpad(p, 16) != d:
                 return bad("_pkcs7_pad/_pkcs7_unpad", {"data": d.hex()}, "unpad(pad(d)) == d", p.hex())
+    # PKCS#7: plaintexts ending in their own pad byte value, all pad lengths
+    for n in range(0, 50):
+        for tail in (b"", b"\x01", b"\x02\x02", b"\x10" * 3, bytes([16 - (n % 16)]) * 2):
+            d = (bytes(range(1, 200)) * 2)[:n] + tail
+            p = m._pkcs7_pad(d, 16)
+            want_p = 16 - len(d) % 16
+            if len(p) != len(d) + want_p or p[:len(d)] != d or p[len(d):] != bytes([want_p]) * want_p:
+                return bad("_pkcs7_pad", {"data": d.hex()}, (d + bytes([want_p]) * want_p).hex(), p.hex())
+            u = m._pkcs7_unpad(p, 16)
+            if u != d:
+                return bad("_pkcs7_unpad", {"data": p.hex()}, d.hex(), bytes(u).hex())
+    for badpad in (b"abc\x00", b"abc\x11", b"ab\x02\x03", bytes(15) + b"\x05"):
+        try:
+            r = m._pkcs7_unpad(badpad, 16)
+            return bad("_pkcs7_unpad", {"data": badpad.hex()}, "ValueError", bytes(r).hex())
+        except ValueError:
+            pass
+    # round-key cache: a sequence of keys that differ only by leading zero bytes / length, without clearing the cache
+    m._ROUND_KEY_CACHE.clear()
+    hist = [bytes(15) + b"\x07", bytes(23) + b"\x07", bytes(31) + b"\x07", b"\x07" + bytes(15), bytes(16), bytes(24), bytes(32), bytes(15) + b"\x07"]
+    for key in hist + hist[::-1]:
+        tried += 1
+        got = [bytes(x) for x in m._get_round_keys(key)]
+        if got != key_expansion(key):
+            return bad("_get_round_keys", {"key": key.hex(), "history": "keys differing by leading zeros / length, cache not cleared"},
+                       key_expansion(key)[-1].hex(), got[-1].hex())
+    for badkey in (bytes(15), bytes(17), b"", b"\x07"):
+        try:
+            m._get_round_keys(badkey)
+            return bad("_get_round_keys", {"key": badkey.hex(), "history": "after valid keys were cached"}, "ValueError", "returned")
+        except ValueError:
+            pass
+    wrapper = _wrapper(m)
+    if wrapper is not None:
+        r = wrapper(m, cbc_enc, cbc_dec)
+        if r is not None:
+            return bad(*r)
     for fn, args in ((m._expand_key, (bytes(15),)), (m.aes_ecb_encrypt, (bytes(16), bytes(15))), (m.aes_cbc_encrypt, (bytes(16), bytes(15), bytes(16))),
                      (m.aes_cbc_decrypt, (bytes(16), bytes(16), bytes(17))), (m._aes_encrypt_block, (bytes(15), key_expansion(bytes(16))))):
         try:
